@@ -42,16 +42,16 @@ def check_c03(ctx):
     n3 = ["pa", "pb", "pc"]
     L3 = ("none", "pos", "neg")
     # styles stated / statedfirst / aggstated: every node predicate also has a unit clause, after resp. before its rules
-    for style in ("plain", "agg", "temporal", "stated", "aggstated") + (() if quick else ("statedfirst",)):
+    for style in ("plain", "agg", "temporal", "stated", "aggstated", "temporalagg") + (() if quick else ("statedfirst",)):
         labels = ("none", "pos") if style == "temporal" else L3
         for e in graphs(n3, labels):
-            if style.startswith("agg") and not any(x == "neg" for row in e for x in row):
+            if (style.startswith("agg") or style == "temporalagg") and not any(x == "neg" for row in e for x in row):
                 continue
             cases.append(dict(nodes=n3, edges=e, style=style))
     exhaustive3 = len(cases)
     for k, nodes in ((4, ["pa", "pb", "pc", "pd"]), (5, ["pa", "pb", "pc", "pd", "pe"])):
         for _ in range(4000 if quick else 60000):
-            style = rnd.choice(("plain", "plain", "agg", "temporal", "stated", "aggstated"))
+            style = rnd.choice(("plain", "plain", "agg", "temporal", "stated", "aggstated", "temporalagg"))
             labels = ("none", "pos") if style == "temporal" else L3
             cases.append(dict(nodes=nodes, edges=random_graph(rnd, nodes, labels, rnd.choice((0.15, 0.3, 0.5))), style=style))
     for i, c in enumerate(cases):
